@@ -1,7 +1,799 @@
-//! C14 engine (stub)
+//! C14: a real `RpcConn` on a real `DuplexConn` connected to the scripted peer. Random histories of
+//! arrivals (messages written by the peer) interleaved with try_get_* / wait_* / refill_once /
+//! try_refill_once / refill_all under a random filter. One request line per history; the model
+//! prints the whole observation log. The property is also evaluated directly on what the real
+//! connection hands out (no model needed for that).
+use rustbus::connection::{Error, Timeout};
+use rustbus::message_builder::{DynamicHeader, MarshalledMessage, MessageBuilder};
+use rustbus::{MessageType, RpcConn};
+use std::collections::{HashMap, HashSet, VecDeque};
+use std::io::Write;
+use std::num::NonZeroU32;
+use std::os::unix::net::UnixStream;
+use std::sync::Arc;
+use std::time::Duration;
 use vcore::common::*;
+use vcore::eng_wire::guard;
+use vcore::peer;
+
+const UNKNOWN_METHOD: &str = "org.freedesktop.DBus.Error.UnknownMethod";
+
+#[derive(Clone, Copy, PartialEq, Eq, Debug)]
+enum Typ {
+    Call,
+    Reply,
+    Error,
+    Signal,
+}
+impl Typ {
+    fn ch(self) -> &'static str {
+        match self {
+            Typ::Call => "c",
+            Typ::Reply => "r",
+            Typ::Error => "e",
+            Typ::Signal => "s",
+        }
+    }
+    fn of(t: MessageType) -> Option<Typ> {
+        match t {
+            MessageType::Call => Some(Typ::Call),
+            MessageType::Reply => Some(Typ::Reply),
+            MessageType::Error => Some(Typ::Error),
+            MessageType::Signal => Some(Typ::Signal),
+            MessageType::Invalid => None,
+        }
+    }
+}
+
+/// one message the peer writes
+#[derive(Clone)]
+struct Arr {
+    id: u32,
+    typ: Typ,
+    serial: u32,
+    rs: Option<u32>,
+    sender: Option<String>,
+    accepted: bool,
+    bytes: Vec<u8>,
+}
+
+type Filter = Arc<dyn Fn(&MarshalledMessage) -> bool + Send + Sync>;
+
+fn marker(m: &MarshalledMessage) -> Option<u32> {
+    m.body.parser().get::<u32>().ok()
+}
+
+/// returns (name for the distribution counters, the predicate; None = leave RpcConn's default filter)
+fn pick_filter(rng: &mut Prng) -> (String, Option<Filter>) {
+    match rng.below(8) {
+        0 => ("default".into(), None),
+        1 => ("accept_all".into(), Some(Arc::new(|_| true))),
+        2 => ("reject_all".into(), Some(Arc::new(|_| false))),
+        3 => {
+            // by type: a random subset of the four kinds
+            let mask = 1 + rng.below(14) as u8;
+            (
+                "by_type".into(),
+                Some(Arc::new(move |m: &MarshalledMessage| {
+                    let bit = match m.typ {
+                        MessageType::Call => 1,
+                        MessageType::Reply => 2,
+                        MessageType::Error => 4,
+                        MessageType::Signal => 8,
+                        MessageType::Invalid => 0,
+                    };
+                    mask & bit != 0
+                })),
+            )
+        }
+        4 => {
+            let p = rng.below(2) as u32;
+            ("by_marker_parity".into(), Some(Arc::new(move |m: &MarshalledMessage| marker(m).map(|x| x % 2 == p).unwrap_or(false))))
+        }
+        5 => {
+            // by member name; replies and errors (no member) pass or not as a whole
+            let others = rng.chance(1, 2);
+            (
+                "by_member".into(),
+                Some(Arc::new(move |m: &MarshalledMessage| match &m.dynheader.member {
+                    Some(name) => name == "Ma",
+                    None => others,
+                })),
+            )
+        }
+        _ => {
+            // an arbitrary predicate: a random table over the markers
+            let table = rng.next();
+            ("table".into(), Some(Arc::new(move |m: &MarshalledMessage| marker(m).map(|x| (table >> (x % 64)) & 1 == 1).unwrap_or(false))))
+        }
+    }
+}
+
+fn build_message(id: u32, typ: Typ, rs: Option<u32>, sender: &Option<String>, member: &str, big: usize) -> MarshalledMessage {
+    let mut msg = match typ {
+        Typ::Call => MessageBuilder::new().call(member).on("/o/p").with_interface("a.b").at("org.me").build(),
+        Typ::Signal => MessageBuilder::new().signal("a.b", member, "/o/p").to("org.me").build(),
+        Typ::Reply | Typ::Error => {
+            let fake_call = DynamicHeader {
+                interface: Some("a.b".into()),
+                member: Some("M".into()),
+                object: Some("/o".into()),
+                serial: NonZeroU32::new(rs.unwrap()),
+                sender: Some(":1.99".into()),
+                ..Default::default()
+            };
+            if typ == Typ::Reply {
+                fake_call.make_response()
+            } else {
+                fake_call.make_error_response("a.b.Err", None)
+            }
+        }
+    };
+    msg.dynheader.sender = sender.clone();
+    msg.body.push_param(id).unwrap();
+    if big > 0 {
+        let blob = vec![0xabu8; big];
+        msg.body.push_param(&blob[..]).unwrap();
+    }
+    msg
+}
+
+fn frame_of(msg: &MarshalledMessage, serial: u32) -> Vec<u8> {
+    let mut buf = Vec::new();
+    rustbus::wire::marshal::marshal(msg, NonZeroU32::new(serial).unwrap(), &mut buf).unwrap();
+    buf.extend_from_slice(msg.get_buf());
+    buf
+}
+
+/// the engine's bookkeeping of where each arrival is; used ONLY to decide which operations may be
+/// issued (a blocking wait needs its answer in the socket) — the comparison is done by the Lean model
+#[derive(Default)]
+struct Tracker {
+    wire: VecDeque<usize>,
+    signals: VecDeque<usize>,
+    calls: VecDeque<usize>,
+    responses: HashMap<u32, usize>,
+}
+#[derive(Clone, Copy, PartialEq, Eq)]
+enum Consumer {
+    Signal,
+    Call,
+    Response(u32),
+}
+impl Tracker {
+    fn read_one(&mut self, arr: &[Arr]) {
+        if let Some(i) = self.wire.pop_front() {
+            let a = &arr[i];
+            if a.accepted {
+                match a.typ {
+                    Typ::Call => self.calls.push_back(i),
+                    Typ::Signal => self.signals.push_back(i),
+                    Typ::Reply | Typ::Error => {
+                        self.responses.insert(a.rs.unwrap(), i);
+                    }
+                }
+            }
+        }
+    }
+    fn try_get(&mut self, k: Consumer) -> Option<usize> {
+        match k {
+            Consumer::Signal => self.signals.pop_front(),
+            Consumer::Call => self.calls.pop_front(),
+            Consumer::Response(s) => self.responses.remove(&s),
+        }
+    }
+    fn stored(&self, k: Consumer) -> bool {
+        match k {
+            Consumer::Signal => !self.signals.is_empty(),
+            Consumer::Call => !self.calls.is_empty(),
+            Consumer::Response(s) => self.responses.contains_key(&s),
+        }
+    }
+    /// would a wait for `k` find its answer without new data?
+    fn available(&self, k: Consumer, arr: &[Arr]) -> bool {
+        self.stored(k)
+            || self.wire.iter().any(|&i| {
+                let a = &arr[i];
+                a.accepted
+                    && match k {
+                        Consumer::Signal => a.typ == Typ::Signal,
+                        Consumer::Call => a.typ == Typ::Call,
+                        Consumer::Response(s) => (a.typ == Typ::Reply || a.typ == Typ::Error) && a.rs == Some(s),
+                    }
+            })
+    }
+    fn wait(&mut self, k: Consumer, arr: &[Arr]) {
+        loop {
+            if self.try_get(k).is_some() || self.wire.is_empty() {
+                return;
+            }
+            self.read_one(arr);
+        }
+    }
+}
+
+/// an error reply as the model prints it
+fn show_err(rs: Option<u32>, dest: &Option<String>, name: &Option<String>) -> String {
+    format!(
+        "{}/{}/{}",
+        rs.map(|s| s.to_string()).unwrap_or("~".into()),
+        dest.as_ref().map(|d| cps(d)).unwrap_or("~".into()),
+        name.as_ref().map(|n| cps(n)).unwrap_or("~".into())
+    )
+}
+
+fn err_kind(e: &Error) -> String {
+    match e {
+        Error::TimedOut => "timedout".into(),
+        Error::ConnectionClosed => "closed".into(),
+        Error::IoError(_) => "io".into(),
+        Error::UnmarshalError(_) => "unmarshal".into(),
+        Error::MarshalError(_) => "marshal".into(),
+        Error::UnexpectedMessageTypeReceived => "unexpected_type".into(),
+        _ => "other".into(),
+    }
+}
+
+struct Hist<'a> {
+    rpc: RpcConn,
+    server: UnixStream,
+    arr: Vec<Arr>,
+    tr: Tracker,
+    ops: Vec<String>,
+    obs: Vec<String>,
+    bad: Vec<String>,
+    // direct checks
+    handed: HashSet<u32>,
+    sig_handed: usize,
+    call_handed: usize,
+    /// rejected calls that arrived and have not been answered yet: (serial, sender)
+    owed: Vec<(u32, Option<String>)>,
+    deliveries: usize,
+    out: &'a mut Out,
+}
+
+impl<'a> Hist<'a> {
+    /// error replies that reached the peer since the last look, in the model's notation; every one
+    /// is checked against the rejected calls that are still owed an answer
+    fn peer_errors(&mut self) -> String {
+        let bytes = peer::drain(&mut self.server);
+        if bytes.is_empty() {
+            return String::new();
+        }
+        let frames = match peer::split_frames(&bytes) {
+            Some(f) => f,
+            None => {
+                self.bad.push(format!("{} bytes at the peer that are not whole frames", bytes.len()));
+                return "|?".into();
+            }
+        };
+        let mut items = Vec::new();
+        for f in frames {
+            match peer::decode_frame(&f) {
+                Ok(m) => {
+                    let rs = m.dynheader.response_serial.map(|s| s.get());
+                    self.account_error("written to the peer", m.typ, rs, &m.dynheader.destination, &m.dynheader.error_name);
+                    items.push(show_err(rs, &m.dynheader.destination, &m.dynheader.error_name));
+                }
+                Err(e) => {
+                    self.bad.push(format!("undecodable frame at the peer: {}", e));
+                    items.push("?".into());
+                }
+            }
+        }
+        self.out.hit_n("errors_written_to_peer", items.len() as u64);
+        format!("|{}", items.join(";"))
+    }
+
+    fn account_error(&mut self, how: &str, typ: MessageType, rs: Option<u32>, dest: &Option<String>, name: &Option<String>) {
+        if !matches!(typ, MessageType::Error) || name.as_deref() != Some(UNKNOWN_METHOD) {
+            self.bad.push(format!("message {} is not an UnknownMethod error: {:?} {:?}", how, typ, name));
+            return;
+        }
+        let pos = self.owed.iter().position(|(s, d)| Some(*s) == rs && d == dest);
+        match pos {
+            Some(p) => {
+                self.owed.remove(p);
+            }
+            None => self.bad.push(format!(
+                "unknown-method error {} with reply serial {:?} to {:?}: no unanswered rejected call has that serial and sender (second answer, or answer to something that is not a rejected call)",
+                how, rs, dest
+            )),
+        }
+    }
+
+    /// direct checks on a message handed out to consumer `k`
+    fn account_delivery(&mut self, what: &str, k: Consumer, m: &MarshalledMessage) -> String {
+        self.deliveries += 1;
+        let id = match marker(m) {
+            Some(id) => id,
+            None => {
+                self.bad.push(format!("{} returned a message without marker", what));
+                return "?".into();
+            }
+        };
+        let a = match self.arr.iter().find(|a| a.id == id) {
+            Some(a) => a.clone(),
+            None => {
+                self.bad.push(format!("{} returned message {} that never arrived", what, id));
+                return id.to_string();
+            }
+        };
+        if !self.handed.insert(id) {
+            self.bad.push(format!("message {} handed out twice (second time by {})", id, what));
+        }
+        if !a.accepted {
+            self.bad.push(format!("message {} was rejected by the filter but {} handed it out", id, what));
+        }
+        // intact: the message handed out is the one that arrived
+        if Typ::of(m.typ) != Some(a.typ)
+            || m.dynheader.serial.map(|s| s.get()) != Some(a.serial)
+            || m.dynheader.response_serial.map(|s| s.get()) != a.rs
+            || m.dynheader.sender != a.sender
+        {
+            self.bad.push(format!("message {} handed out by {} differs from the one that arrived", id, what));
+        }
+        match k {
+            Consumer::Signal => {
+                if a.typ != Typ::Signal {
+                    self.bad.push(format!("{} returned the {:?} {}", what, a.typ, id));
+                }
+                let expect = self.arr.iter().filter(|x| x.accepted && x.typ == Typ::Signal).nth(self.sig_handed).map(|x| x.id);
+                if expect != Some(id) {
+                    self.bad.push(format!("signals out of arrival order: {} returned {} but the next accepted signal is {:?}", what, id, expect));
+                }
+                self.sig_handed += 1;
+            }
+            Consumer::Call => {
+                if a.typ != Typ::Call {
+                    self.bad.push(format!("{} returned the {:?} {}", what, a.typ, id));
+                }
+                let expect = self.arr.iter().filter(|x| x.accepted && x.typ == Typ::Call).nth(self.call_handed).map(|x| x.id);
+                if expect != Some(id) {
+                    self.bad.push(format!("calls out of arrival order: {} returned {} but the next accepted call is {:?}", what, id, expect));
+                }
+                self.call_handed += 1;
+            }
+            Consumer::Response(s) => {
+                if !(a.typ == Typ::Reply || a.typ == Typ::Error) || a.rs != Some(s) {
+                    self.bad.push(format!("{} for serial {} returned the {:?} {} with reply serial {:?}", what, s, a.typ, id, a.rs));
+                }
+            }
+        }
+        id.to_string()
+    }
+
+    fn push(&mut self, op: String, item: String) {
+        let written = self.peer_errors();
+        self.ops.push(op);
+        self.obs.push(format!("{}{}", item, written));
+    }
+
+    fn write_peer(&mut self, bytes: &[u8]) {
+        self.server.write_all(bytes).expect("peer write");
+    }
+
+    fn op_try(&mut self, k: Consumer) {
+        let (op, what) = match k {
+            Consumer::Signal => ("TS".to_string(), "try_get_signal".to_string()),
+            Consumer::Call => ("TC".to_string(), "try_get_call".to_string()),
+            Consumer::Response(s) => (format!("TR:{}", s), format!("try_get_response({})", s)),
+        };
+        let rpc = &mut self.rpc;
+        let r = guard(|| match k {
+            Consumer::Signal => rpc.try_get_signal(),
+            Consumer::Call => rpc.try_get_call(),
+            Consumer::Response(s) => rpc.try_get_response(NonZeroU32::new(s).unwrap()),
+        });
+        self.tr.try_get(k);
+        let item = match r {
+            Ok(Some(m)) => {
+                self.out.hit("try_some");
+                format!("t{}", self.account_delivery(&what, k, &m))
+            }
+            Ok(None) => {
+                self.out.hit("try_none");
+                "t~".into()
+            }
+            Err(p) => {
+                self.bad.push(format!("{} panicked: {}", what, p));
+                "Xpanic".into()
+            }
+        };
+        self.push(op, item);
+    }
+
+    fn op_wait(&mut self, k: Consumer) {
+        let (op, what) = match k {
+            Consumer::Signal => ("WS".to_string(), "wait_signal".to_string()),
+            Consumer::Call => ("WC".to_string(), "wait_call".to_string()),
+            Consumer::Response(s) => (format!("WR:{}", s), format!("wait_response({})", s)),
+        };
+        let avail = self.tr.available(k, &self.arr);
+        // the answer is in the socket: the timeout is only a safety net. Otherwise the real call would
+        // block; with a short timeout it must consume everything and report TimedOut.
+        let timeout = Timeout::Duration(Duration::from_millis(if avail { 3000 } else { 100 }));
+        let reads_needed = !self.tr.stored(k);
+        let rpc = &mut self.rpc;
+        let r = guard(|| match k {
+            Consumer::Signal => rpc.wait_signal(timeout),
+            Consumer::Call => rpc.wait_call(timeout),
+            Consumer::Response(s) => rpc.wait_response(NonZeroU32::new(s).unwrap(), timeout),
+        });
+        self.tr.wait(k, &self.arr);
+        let item = match r {
+            Ok(Ok(m)) => {
+                self.out.hit(if reads_needed { "wait_got_after_reading" } else { "wait_got_stored" });
+                format!("g{}", self.account_delivery(&what, k, &m))
+            }
+            Ok(Err(Error::TimedOut)) => {
+                if avail {
+                    self.bad.push(format!("{} timed out although a matching accepted message had arrived", what));
+                }
+                self.out.hit("wait_blocked");
+                "b".into()
+            }
+            Ok(Err(e)) => {
+                self.bad.push(format!("{} failed: {}", what, err_kind(&e)));
+                format!("X{}", err_kind(&e))
+            }
+            Err(p) => {
+                self.bad.push(format!("{} panicked: {}", what, p));
+                "Xpanic".into()
+            }
+        };
+        self.push(op, item);
+    }
+
+    fn op_refill_once(&mut self, rng: &mut Prng) {
+        let rpc = &mut self.rpc;
+        let via_try = rng.chance(1, 2);
+        let r = guard(|| {
+            if via_try {
+                rpc.try_refill_once(Timeout::Nonblock)
+            } else {
+                rpc.refill_once(Timeout::Nonblock).map(Some)
+            }
+        });
+        let had = !self.tr.wire.is_empty();
+        self.tr.read_one(&self.arr);
+        let item = match r {
+            Ok(Ok(Some(t))) => {
+                self.out.hit(if via_try { "try_refill_once_ok" } else { "refill_once_ok" });
+                if !had {
+                    self.bad.push("refill_once read a message although nothing had arrived".into());
+                }
+                format!("r{}", Typ::of(t).map(|t| t.ch()).unwrap_or("?"))
+            }
+            Ok(Ok(None)) => "Xnone".into(),
+            Ok(Err(Error::TimedOut)) => {
+                self.out.hit("refill_once_timedout");
+                if had {
+                    self.bad.push("refill_once(Nonblock) timed out although a complete message was in the socket".into());
+                }
+                "to".into()
+            }
+            Ok(Err(e)) => {
+                self.bad.push(format!("refill_once failed: {}", err_kind(&e)));
+                format!("X{}", err_kind(&e))
+            }
+            Err(p) => {
+                self.bad.push(format!("refill_once panicked: {}", p));
+                "Xpanic".into()
+            }
+        };
+        self.push("RO".into(), item);
+    }
+
+    fn op_refill_all(&mut self) {
+        let rpc = &mut self.rpc;
+        let r = guard(|| rpc.refill_all());
+        while !self.tr.wire.is_empty() {
+            self.tr.read_one(&self.arr);
+        }
+        let item = match r {
+            Ok(Ok(errs)) => {
+                self.out.hit("refill_all");
+                self.out.hit_n("errors_returned_by_refill_all", errs.len() as u64);
+                let mut items = Vec::new();
+                for e in &errs {
+                    let rs = e.dynheader.response_serial.map(|s| s.get());
+                    self.account_error("returned by refill_all", e.typ, rs, &e.dynheader.destination, &e.dynheader.error_name);
+                    items.push(show_err(rs, &e.dynheader.destination, &e.dynheader.error_name));
+                }
+                format!("d[{}]", items.join(";"))
+            }
+            Ok(Err(e)) => {
+                self.bad.push(format!("refill_all failed: {}", err_kind(&e)));
+                format!("X{}", err_kind(&e))
+            }
+            Err(p) => {
+                self.bad.push(format!("refill_all panicked: {}", p));
+                "Xpanic".into()
+            }
+        };
+        self.push("RA".into(), item);
+    }
+
+    /// record that `self.arr[i]` is now completely in the socket
+    fn arrived(&mut self, i: usize) {
+        let a = self.arr[i].clone();
+        self.tr.wire.push_back(i);
+        if !a.accepted && a.typ == Typ::Call {
+            self.owed.push((a.serial, a.sender.clone()));
+        }
+        let op = format!(
+            "A:{}:{}:{}:{}:{}:{}",
+            a.id,
+            a.typ.ch(),
+            a.serial,
+            a.rs.map(|s| s.to_string()).unwrap_or("~".into()),
+            a.sender.as_ref().map(|s| cps(s)).unwrap_or("~".into()),
+            if a.accepted { 1 } else { 0 }
+        );
+        self.out.hit(&format!("arrive_{}_{}", a.typ.ch(), if a.accepted { "accepted" } else { "rejected" }));
+        self.push(op, "a".into());
+    }
+}
+
+fn history(out: &mut Out, rng: &mut Prng, max_ops: usize) {
+    let (conn, server) = peer::connect_pair(false);
+    server.set_write_timeout(Some(Duration::from_secs(10))).unwrap();
+    let mut rpc = RpcConn::new(conn);
+    let (fname, filter) = pick_filter(rng);
+    if let Some(f) = &filter {
+        let f = f.clone();
+        rpc.set_filter(Box::new(move |m| f(m)));
+    }
+    out.hit(&format!("filter_{}", fname));
+    let verdict = |m: &MarshalledMessage| filter.as_ref().map(|f| f(m)).unwrap_or(true);
+
+    // reply serials: distinct per history (duplicates are outside the property: HashMap::insert overwrites)
+    let mut pool: Vec<u32> = Vec::new();
+    while pool.len() < max_ops + 2 {
+        let s = match rng.below(6) {
+            0 => u32::MAX - rng.below(3) as u32,
+            1 => 1 + rng.below(3) as u32,
+            _ => 1 + rng.below(5000) as u32,
+        };
+        if !pool.contains(&s) {
+            pool.push(s);
+        }
+    }
+    let mut unused_rs = pool.clone();
+    let senders: [Option<String>; 4] = [None, Some(":1.7".into()), Some(":1.4294967295".into()), Some("org.example.Caller".into())];
+
+    let mut h = Hist {
+        rpc,
+        server,
+        arr: Vec::new(),
+        tr: Tracker::default(),
+        ops: Vec::new(),
+        obs: Vec::new(),
+        bad: Vec::new(),
+        handed: HashSet::new(),
+        sig_handed: 0,
+        call_handed: 0,
+        owed: Vec::new(),
+        deliveries: 0,
+        out,
+    };
+    let n_ops = rng.range(3, max_ops as u64) as usize;
+    let mut big_used = false;
+    let profile = rng.below(4); // 0: mixed, 1: arrival heavy, 2: wait heavy, 3: response heavy
+
+    let mut new_arrival = |h: &mut Hist, rng: &mut Prng, big_used: &mut bool| -> usize {
+        let id = h.arr.len() as u32 + 1;
+        let typ = match (profile, rng.below(10)) {
+            (3, 0..=5) => {
+                if rng.chance(1, 2) {
+                    Typ::Reply
+                } else {
+                    Typ::Error
+                }
+            }
+            (_, 0..=2) => Typ::Call,
+            (_, 3..=5) => Typ::Signal,
+            (_, 6..=7) => Typ::Reply,
+            _ => Typ::Error,
+        };
+        let rs = if typ == Typ::Reply || typ == Typ::Error {
+            let k = rng.below(unused_rs.len() as u64) as usize;
+            Some(unused_rs.swap_remove(k))
+        } else {
+            None
+        };
+        let sender = rng.pick(&senders).clone();
+        let member = if rng.chance(1, 2) { "Ma" } else { "Mb" };
+        let big = if !*big_used && rng.chance(1, 40) {
+            *big_used = true;
+            h.out.hit("message_larger_than_one_read");
+            (65 * 1024 + rng.below(40 * 1024)) as usize
+        } else {
+            0
+        };
+        let serial = match rng.below(5) {
+            0 => u32::MAX - id,
+            _ => 1000 + id * 3 + rng.below(3) as u32,
+        };
+        let msg = build_message(id, typ, rs, &sender, member, big);
+        let accepted = verdict(&msg);
+        let bytes = frame_of(&msg, serial);
+        h.arr.push(Arr { id, typ, serial, rs, sender, accepted, bytes });
+        h.arr.len() - 1
+    };
+
+    let pick_consumer = |h: &Hist, rng: &mut Prng, want_available: bool| -> Consumer {
+        // candidates: signal, call, every reply serial of the pool (asked before arrival, after delivery, never arriving)
+        let mut cands = vec![Consumer::Signal, Consumer::Call];
+        for a in &h.arr {
+            if let Some(s) = a.rs {
+                cands.push(Consumer::Response(s));
+            }
+        }
+        cands.push(Consumer::Response(pool[rng.below(pool.len() as u64) as usize]));
+        if want_available {
+            let av: Vec<Consumer> = cands.iter().cloned().filter(|k| h.tr.available(*k, &h.arr)).collect();
+            if !av.is_empty() {
+                return av[rng.below(av.len() as u64) as usize];
+            }
+        }
+        cands[rng.below(cands.len() as u64) as usize]
+    };
+
+    let mut blocked_waits = 0;
+    while h.ops.len() < n_ops {
+        let r = rng.below(100);
+        let arrive_w = match profile {
+            1 => 55,
+            2 => 30,
+            _ => 38,
+        };
+        if r < arrive_w {
+            match rng.below(8) {
+                0 => {
+                    // several messages back-to-back in ONE write
+                    let k = rng.range(2, 4) as usize;
+                    let idx: Vec<usize> = (0..k).map(|_| new_arrival(&mut h, rng, &mut big_used)).collect();
+                    let mut all = Vec::new();
+                    for &i in &idx {
+                        all.extend_from_slice(&h.arr[i].bytes);
+                    }
+                    h.write_peer(&all);
+                    h.out.hit("burst_write");
+                    for i in idx {
+                        h.arrived(i);
+                    }
+                }
+                1 if h.tr.wire.is_empty() => {
+                    // a message in two writes; in between the client looks: nothing complete has arrived
+                    let i = new_arrival(&mut h, rng, &mut big_used);
+                    let bytes = h.arr[i].bytes.clone();
+                    let cut = rng.range(1, bytes.len() as u64 - 1) as usize;
+                    h.write_peer(&bytes[..cut]);
+                    h.out.hit("split_write_with_ops_between");
+                    for _ in 0..rng.range(1, 2) {
+                        match rng.below(3) {
+                            0 => h.op_refill_once(rng),
+                            1 => h.op_refill_all(),
+                            _ => {
+                                let k = pick_consumer(&h, rng, false);
+                                h.op_try(k)
+                            }
+                        }
+                    }
+                    h.write_peer(&bytes[cut..]);
+                    h.arrived(i);
+                }
+                _ => {
+                    let i = new_arrival(&mut h, rng, &mut big_used);
+                    let bytes = h.arr[i].bytes.clone();
+                    if rng.chance(1, 6) && bytes.len() > 20 {
+                        // two writes, nothing in between
+                        let cut = rng.range(1, bytes.len() as u64 - 1) as usize;
+                        h.write_peer(&bytes[..cut]);
+                        h.write_peer(&bytes[cut..]);
+                        h.out.hit("split_write");
+                    } else {
+                        h.write_peer(&bytes);
+                    }
+                    h.arrived(i);
+                }
+            }
+        } else if r < arrive_w + 20 {
+            let want = rng.chance(1, 2);
+            let k = pick_consumer(&h, rng, want);
+            h.op_try(k);
+        } else if r < arrive_w + 30 {
+            h.op_refill_once(rng);
+        } else if r < arrive_w + 36 {
+            h.op_refill_all();
+        } else {
+            let k = pick_consumer(&h, rng, true);
+            if h.tr.available(k, &h.arr) {
+                h.op_wait(k);
+            } else if blocked_waits == 0 && rng.chance(1, 6) {
+                // nothing to come: the wait must read everything and give up
+                blocked_waits += 1;
+                h.op_wait(k);
+            } else {
+                h.op_try(k);
+            }
+        }
+    }
+    // epilogue: read and fetch everything, so that "exactly once" can be checked on the whole history
+    match rng.below(3) {
+        0 => h.op_refill_all(),
+        1 => {
+            while !h.tr.wire.is_empty() {
+                h.op_refill_once(rng);
+            }
+            h.op_refill_once(rng);
+        }
+        _ => {}
+    }
+    for k in [Consumer::Signal, Consumer::Call] {
+        let mut guard_n = 0;
+        loop {
+            let before = h.deliveries;
+            if h.tr.available(k, &h.arr) && rng.chance(1, 2) {
+                h.op_wait(k);
+            } else {
+                h.op_try(k);
+            }
+            guard_n += 1;
+            if h.deliveries == before || guard_n > 200 {
+                break;
+            }
+        }
+    }
+    h.op_refill_all();
+    for k in [Consumer::Signal, Consumer::Call] {
+        let mut guard_n = 0;
+        loop {
+            let before = h.deliveries;
+            h.op_try(k);
+            guard_n += 1;
+            if h.deliveries == before || guard_n > 200 {
+                break;
+            }
+        }
+    }
+    let all_rs: Vec<u32> = h.arr.iter().filter_map(|a| a.rs).collect();
+    for s in all_rs {
+        h.op_try(Consumer::Response(s));
+    }
+    // conservation at the end: everything accepted has been handed out (exactly once is checked on the way)
+    for a in &h.arr {
+        if a.accepted && !h.handed.contains(&a.id) {
+            h.bad.push(format!("accepted {:?} {} (reply serial {:?}) was never handed out although everything was read and fetched", a.typ, a.id, a.rs));
+        }
+    }
+    for (s, d) in &h.owed {
+        h.bad.push(format!("rejected call with serial {} from {:?} was read but never answered with an unknown-method error", s, d));
+    }
+    let req = format!("c14.run {}", h.ops.join(" "));
+    let obs = h.obs.join(" ");
+    for b in &h.bad {
+        h.out.violation(&req, b);
+    }
+    h.out.hit("history");
+    h.out.hit_n("ops", h.ops.len() as u64);
+    h.out.hit_n("deliveries", h.deliveries as u64);
+    let nontrivial = h.deliveries >= 1 && h.arr.len() >= 2;
+    h.out.case(&req, &obs, nontrivial);
+}
 
 pub fn run(cfg: &Cfg) {
-    let out = Out::new(&cfg.outdir);
-    out.finish("stub", false);
+    std::panic::set_hook(Box::new(|_| {}));
+    let mut out = Out::new(&cfg.outdir);
+    let mut rng = Prng::new(cfg.seed);
+    let (n, max_ops) = if cfg.thorough { (3000, 40) } else { (400, 12) };
+    for _ in 0..n {
+        history(&mut out, &mut rng, max_ops);
+    }
+    out.finish(
+        "random histories on a real RpcConn (real DuplexConn + scripted peer): arrivals of calls / signals / replies / errors (unique marker in the body, distinct reply serials, senders present/absent, one message > 64 KiB in some histories, bursts of 2-4 messages in one write, messages split over two writes with client operations in between) interleaved with try_get_response/signal/call, refill_once / try_refill_once (Nonblock; also on an empty socket), refill_all, wait_response/signal/call (answer already in the socket; occasionally nothing to come, short timeout), under a random filter (default, accept all, reject all, by type subset, by marker parity, by member name, random table over markers); quick: 400 histories of 3..12 operations, thorough: 3000 of 3..40, each followed by an epilogue that reads and fetches everything; the model prints the whole observation log incl. error replies written to the peer; direct checks: nothing handed out twice, nothing rejected handed out, message intact, right consumer / reply serial, signals and calls in arrival order, every produced error is an UnknownMethod error for a not yet answered rejected call (its serial, its sender), at the end every accepted message handed out and every rejected call answered; distinct by request; non-trivial = at least two arrivals and one delivery",
+        false,
+    );
 }
